@@ -8,10 +8,13 @@ import Driver.Sched
 import Driver.Priority
 import Driver.Classify
 import Driver.Scripts
+import Driver.Archive
 namespace Driver
 
 def dispatch (line : String) : String :=
   match line.trimAscii.toString.splitOn " " with
+  | "aval" :: rest => (handleAval rest).getD "bad-op"
+  | "aarch" :: rest => (handleAarch rest).getD "bad-op"
   | "scripts" :: rest => (handleScripts rest).getD "bad-op"
   | "xxh" :: rest => (handleXxh rest).getD "bad-op"
   | "pout" :: rest => (handlePout rest).getD "bad-op"
